@@ -19,6 +19,30 @@ theorem encodePost_lt (p : Nat) : encodePost p < 128 := by
   unfold encodePost
   split <;> omega
 
+theorem encodeWord_ok {rb : Option Nat} {i : Instr} {w : Word} (he : encodeWord rb i = some w) :
+    wordOk i = true := by
+  simp only [encodeWord] at he
+  split at he
+  · simp at he
+  · rename_i h; simpa using h
+
+/-- `encodeWord` without its representability test. -/
+def encodeRaw (rb : Option Nat) (i : Instr) : Option Word :=
+  let first := (i.next.getD 128, i.right)
+  match i.op with
+  | .kern _ => none
+  | .kernAt idx => some ⟨first.1, first.2, idx / 256 + 128, idx % 256⟩
+  | .lig c p => some ⟨first.1, first.2, encodePost p, c⟩
+  | .redirect u flag =>
+    let h : Nat × Nat := if flag then (match rb with | none => (254, 0) | some c => (255, c)) else (255, 0)
+    some ⟨h.1, h.2, u / 256, u % 256⟩
+
+theorem encodeWord_raw {rb : Option Nat} {i : Instr} {w : Word} (he : encodeWord rb i = some w) :
+    encodeRaw rb i = some w := by
+  have hok := encodeWord_ok he
+  simp only [encodeWord, hok, Bool.not_true, Bool.false_eq_true, if_false] at he
+  exact he
+
 theorem next_getD (next : Option Nat) (h : match next with | none => True | some s => s < 128) :
     ¬ next.getD 128 > 128 ∧ (if next.getD 128 < 128 then some (next.getD 128) else none) = next := by
   cases next with
@@ -27,7 +51,9 @@ theorem next_getD (next : Option Nat) (h : match next with | none => True | some
 
 /-- **word_roundtrip.** Decoding an encoded LIG/KRN step gives the step back. -/
 theorem word_roundtrip_step (rb : Option Nat) (i : Instr) (w : Word) (hok : wordOk i = true)
-    (hop : i.op.isRedirect = false) (he : encodeWord rb i = some w) : decodeWord w = i := by
+    (hop : i.op.isRedirect = false) (he0 : encodeWord rb i = some w) : decodeWord w = i := by
+  have he := encodeWord_raw he0
+  clear he0
   obtain ⟨next, right, op⟩ := i
   simp only [wordOk, Bool.and_eq_true, decide_eq_true_eq] at hok
   obtain ⟨⟨hnext, _⟩, hopk⟩ := hok
@@ -37,14 +63,14 @@ theorem word_roundtrip_step (rb : Option Nat) (i : Instr) (w : Word) (hok : word
   | redirect u f => simp [Op.isRedirect] at hop
   | kernAt idx =>
     simp only [decide_eq_true_eq] at hopk
-    simp only [encodeWord, Option.some.injEq] at he
+    simp only [encodeRaw, Option.some.injEq] at he
     subst he
     have h2 : idx / 256 + 128 ≥ 128 := by omega
     simp only [decodeWord, hn.1, if_false, h2, if_true, hn.2, Instr.mk.injEq, true_and, Op.kernAt.injEq]
     omega
   | lig c p =>
     simp only [Bool.and_eq_true, decide_eq_true_eq] at hopk
-    simp only [encodeWord, Option.some.injEq] at he
+    simp only [encodeRaw, Option.some.injEq] at he
     subst he
     have h2 : ¬ encodePost p ≥ 128 := by have := encodePost_lt p; omega
     simp only [decodeWord, hn.1, if_false, h2, decodePost_encodePost p hopk.2, hn.2]
@@ -52,16 +78,20 @@ theorem word_roundtrip_step (rb : Option Nat) (i : Instr) (w : Word) (hok : word
 /-- A redirect word decodes to an unconditional stop with the same restart address (the
 right-character byte carries the boundary character, not the instruction's field). -/
 theorem word_roundtrip_redirect (rb : Option Nat) (next : Option Nat) (right u : Nat) (flag : Bool) (w : Word)
-    (hu : u < 65536) (he : encodeWord rb ⟨next, right, .redirect u flag⟩ = some w) :
+    (hu : u < 65536) (he0 : encodeWord rb ⟨next, right, .redirect u flag⟩ = some w) :
     decodeWord w = ⟨none, w.b1, .redirect u true⟩ := by
-  simp only [encodeWord, Option.some.injEq] at he
+  have he := encodeWord_raw he0
+  clear he0
+  simp only [encodeRaw, Option.some.injEq] at he
   subst he
   have := Nat.div_add_mod u 256
   cases flag <;> cases rb <;> simp [decodeWord] <;> omega
 
 /-- The reader's "skip byte = 255" test on an encoded word is `skip255` of `Model/C11.lean`. -/
 theorem skip255_encode (rb : Option Nat) (i : Instr) (w : Word) (hok : wordOk i = true)
-    (he : encodeWord rb i = some w) : (w.b0 = 255) ↔ skip255 rb i = true := by
+    (he0 : encodeWord rb i = some w) : (w.b0 = 255) ↔ skip255 rb i = true := by
+  have he := encodeWord_raw he0
+  clear he0
   obtain ⟨next, right, op⟩ := i
   simp only [wordOk, Bool.and_eq_true, decide_eq_true_eq] at hok
   obtain ⟨⟨hnext, _⟩, hopk⟩ := hok
@@ -69,21 +99,21 @@ theorem skip255_encode (rb : Option Nat) (i : Instr) (w : Word) (hok : wordOk i 
   cases op with
   | kern k => simp at hopk
   | kernAt idx =>
-    simp only [encodeWord, Option.some.injEq] at he
+    simp only [encodeRaw, Option.some.injEq] at he
     subst he
     simp only [skip255]
     constructor
     · intro h; omega
     · intro h; simp at h
   | lig c p =>
-    simp only [encodeWord, Option.some.injEq] at he
+    simp only [encodeRaw, Option.some.injEq] at he
     subst he
     simp only [skip255]
     constructor
     · intro h; omega
     · intro h; simp at h
   | redirect u flag =>
-    simp only [encodeWord, Option.some.injEq] at he
+    simp only [encodeRaw, Option.some.injEq] at he
     subst he
     cases flag <;> cases rb <;> simp [skip255]
 
